@@ -153,6 +153,15 @@ func (fv *FuncVC) translate() (err error) {
 		fv.vals[f] = Val{T: t}
 		fv.params[f.Name()] = Val{T: t}
 	}
+	if bn, ok := loadBaselineNames(fv.P.VerifRoot)[fn.String()]; ok && len(bn.FreeVars) == len(fn.FreeVars) {
+		// a captured variable renamed since the pinned tree: the contract's name goes to the same position
+		for k, old := range bn.FreeVars {
+			if _, bound := fv.params[old]; !bound && old != fn.FreeVars[k].Name() {
+				fv.params[old] = fv.vals[fn.FreeVars[k]]
+				fv.warn("the contract's captured variable %q is bound to %q (same position; renamed since the pinned tree)", old, fn.FreeVars[k].Name())
+			}
+		}
+	}
 	fv.applyAxioms()
 	fv.streamAxioms()
 	fv.setupReplay()
